@@ -564,7 +564,9 @@ def _bound_sets(quick):
        bound="default model (thorough + cfit, extended): bound types {two-sided, lower-only, upper-only} rotated over {mass, width, coupling} (quick 2 of 3 "
              "rotations), derivatives in the fit variable x through trans_fcn_grad / trans_f_grad_hess / trans_grad_hessp; Gaussian constraints on a "
              "coupling and a mass for FCN (default, cfit; thorough all) and CombineFCN (two data sets); Hessian (default: and Hessian-vector product) at batch "
-             "in {n+1, 65000} (default also n-1; thorough all models, + 3, n, 7) on a 22+7 / 37 row sample; Richardson steps 1e-4 / 5e-5, rtol 1e-5")
+             "in {n+1, 65000} (default also n-1; thorough all models, + 3, n, 7) on a 22+7 / 37 row sample; Richardson steps 1e-4 / 5e-5, rtol 1e-5",
+       assumes=["grad_hessp is called after nll_grad on the same model object (a first-use call on a fresh cached_amp model raises a TensorFlow-internal "
+                "InternalError while tracing its cached tf.function under a ForwardAccumulator)"])
 def deriv_bounds(ctx):
     np.random.seed(ctx.seed + 71)
     agg = Agg()
@@ -679,6 +681,9 @@ def deriv_bounds(ctx):
                 fcn = config.get_fcn(alld, batch=b)
                 keep.append(fcn)
                 x = np.array(fcn.vm.get_all_val(), dtype=float)
+                # nll_grad first, as every minimiser does: on a fresh cached_amp model a grad_hessp call that is the FIRST use of its cached
+                # tf.function raises a TensorFlow InternalError while tracing under the ForwardAccumulator (TF-internal; recorded, not asserted)
+                fcn.nll_grad(x)
                 v, g, h = fcn.nll_grad_hessian(x)
                 out = [float(v), np.asarray(g, dtype=float), np.asarray(h, dtype=float)]
                 if not cfit and (model == "default" or not quick):  # cfit-family Hessian-vector products are already refuted (hessp/<model>)
